@@ -32,6 +32,7 @@ def traitsByName (elem : Bool) : String → Option (Option Traits)
   | "p24" => some (some { id := 3, size := 24, init := false, fini := none })
   | "z" => some (some { id := 4, size := 0, init := false, fini := none })
   | "c" => some (some { id := 5, size := 1, init := false, fini := none })
+  | "d" => some (some { id := 15, size := 8, init := false, fini := none })
   | "m4" => if elem then some (some { id := 6, size := 4, init := true, fini := some 1 }) else none
   | "m8" => if elem then some (some { id := 7, size := 8, init := true, fini := some 2 }) else none
   | "n4" => if elem then some (some { id := 8, size := 4, init := true, fini := some 1 }) else none
@@ -293,6 +294,23 @@ def step (elem : Bool) (st : St) (w : List String) : St × String :=
         | some pos, some (bytes, _) =>
           finish elem st (if elem then insertOpE m h pos bytes else insertOp m h pos bytes) noDetail offRet [okAlt st h (Vec.insert v pos bytes), refAlt st]
         | _, _ => bad
+      | "vprep", [n] =>
+        if elem then bad
+        else
+          let nv : Option Int :=
+            if n.startsWith "-" ∧ n.length > 1 then (nat? (n.drop 1).toString).map fun a => - Int.ofNat a
+            else (nat? n).map Int.ofNat
+          match nv with
+          | some nv =>
+            if nv.natAbs > 100000 then bad
+            else
+              let add := nv.natAbs * 8
+              let alts :=
+                if nv ≥ 0 then [okAlt st h (v ++ Heap.zeros add), refAlt st]
+                else if add ≤ v.length then [okAlt st h (v ++ v.drop (v.length - add)), refAlt st]
+                else [refAlt st]
+              finish elem st (valuesPrepare m h { id := 15, size := 8, init := false, fini := none } nv) noDetail offRet alts
+          | none => bad
       | "binsert", [pos, dat] =>
         if elem then bad
         else
@@ -350,8 +368,9 @@ def step (elem : Bool) (st : St) (w : List String) : St × String :=
           let nocopy : Bool := match x with
             | some x => x.uncopyable
             | none => false
-          let alts := [okAlt st h v] ++ (if k < v.length then [okAlt st h (v.take k)] else [])
-            ++ (if !sameType || nocopy then [okAlt st h []] else []) ++ [refAlt st]
+          -- a value never loses data by reserving room (the content is dropped only with a change of the element
+          -- type or when it can not be copied)
+          let alts := [okAlt st h v] ++ (if !sameType || nocopy then [okAlt st h []] else []) ++ [refAlt st]
           finish elem st (arrayReserve m h n t) noDetail (fun _ _ => "ptr") alts
         | _, _ => bad
       | "reduce", [] =>
@@ -560,6 +579,17 @@ def stepX (elem : Bool) (st : St) (w : List String) : St × String :=
                 finishX elem st (arraySetValue m h t bytes nul) (fun _ _ => toString code) "BadOperation" [okAlt st h data, refAlt st]
               | none => bad
             | _ => bad
+          | "ebuf", [n] =>
+            -- io::buffer b(array); b.shift(n); b.shift(0): another handle on the data consumes and compacts its view;
+            -- the array keeps its value (return: bit 0 = shift(n) accepted, bit 1 = shift(0) compacted)
+            match nat? n with
+            | some n =>
+              if n > 100000 then bad
+              else
+                -- a typed array shows no raw data to `array::length()`: nothing to compact
+                let r := if 0 < n ∧ n ≤ v.length then (if handleTyped m h then 1 else 3) else 0
+                emit elem st "ok" "-" (toString r) [("ok -", st.sp)]
+            | none => bad
           | "setslice", [src, off, len] =>
             match handleArg st.nh src, nat? off, nat? len with
             | some h2, some off, some len =>
@@ -693,10 +723,9 @@ def stepLine (elem : Bool) (st : St) (w : List String) : St × String :=
   match w with
   | "x" :: _ => stepX elem st w
   | "r" :: _ =>
-    if elem then
-      let (r', out) := Driver.Refs.step st.refs w
-      ({ st with refs := r' }, out)
-    else (st, "bad-op")
+    -- C05: the bookkeeping must stay legal; C04 (stage part): every handle is an independent nested value
+    let (r', out) := Driver.Refs.step (!elem) st.refs w
+    ({ st with refs := r' }, out)
   | _ => step elem st w
 
 def main (elem : Bool) : IO Unit := do
